@@ -584,6 +584,19 @@ class Prov:
                 new = dict(st)
                 for t in a.targets:
                     self._assign(new, t, tags, fn, a.value, st)
+                # an object stored into a persistent container (`self._cache[key] = x`, `cache[key] = x = make()`) is
+                # from then on also reachable from persistent state: the names that hold it say so
+                held = set()
+                for t in a.targets:
+                    if isinstance(t, ast.Subscript):
+                        held |= {g for g in self.of(t.value, st, fn) if is_persist(g) or is_self(g)}
+                if held:
+                    names = [t.id for t in a.targets if isinstance(t, ast.Name)]
+                    if isinstance(a.value, ast.Name):
+                        names.append(a.value.id)
+                    for nm in names:
+                        if nm in new and not (new[nm] <= frozenset({NONE})):
+                            new[nm] = frozenset(new[nm] | held)
                 return new
             if isinstance(a, ast.AnnAssign) and a.value is not None:
                 new = dict(st)
